@@ -8,6 +8,7 @@ import (
 	"time"
 
 	"github.com/fatedier/frp/pkg/config/types"
+	"github.com/fatedier/frp/pkg/util/verifhook"
 )
 
 const (
@@ -82,6 +83,7 @@ func (pm *Manager) Acquire(name string, port int) (realPort int, err error) {
 		if err == nil {
 			portCtx.Port = realPort
 		}
+		verifhook.At("ports.acquire", "net", pm.netType, "name", name, "req", port, "real", realPort, "err", err, "free_n", len(pm.freePorts), "used_n", len(pm.usedPorts))
 		pm.mu.Unlock()
 	}()
 
@@ -171,6 +173,7 @@ func (pm *Manager) Release(port int) {
 		ctx.Closed = true
 		ctx.UpdateTime = time.Now()
 	}
+	verifhook.At("ports.release", "net", pm.netType, "port", port, "free_n", len(pm.freePorts), "used_n", len(pm.usedPorts))
 }
 
 // Release reserved port if it isn't used in last 24 hours.
